@@ -215,3 +215,10 @@ Definition record_run_host (guarded : bool) (w : world) (r : run) : world * resu
   | (w', OK) => ({| dir := None; old := old w' |}, OK)
   | (w', Error) => (w', Error)
   end.
+
+(* ----- live mode (cmds/live.c): the data directory is a name obtained from mkstemp + unlink - a name that did
+   not exist then - recorded into like any DIR; cleanup_tempdir removes it at exit if can_remove_directory says it
+   is uftrace data or empty ([guarded_cleanup]; the code as found removed it unconditionally) *)
+Definition live_run (guarded_cleanup : bool) (w : world) (r : run) : world :=
+  let w' := fst (record_run true w r) in
+  {| dir := if guarded_cleanup && negb (can_remove (dir w')) then dir w' else None; old := old w' |}.
